@@ -55,6 +55,7 @@ type Engine struct {
 	attrIndex  map[string]*TypeAttr
 	attrTypes  map[string]types.Type
 	gaddrs     map[*Term]bool
+	aliases    map[string]map[string]string // function -> contract variable name -> current source name (pure renames)
 	instCache  map[[2]*Term]*Term // (quantifier, instance term) -> instantiated body, shared by all obligations
 }
 
@@ -106,6 +107,7 @@ func NewEngine(repoDir string, specDir string) (*Engine, error) {
 			return nil, err
 		}
 	}
+	e.loadAliases(specDir)
 	files, _ := filepath.Glob(filepath.Join(specDir, "*.spec"))
 	sort.Strings(files)
 	for _, f := range files {
